@@ -20,6 +20,8 @@ type c19Origin struct {
 	Tag     string `json:"tag"`
 	Shape   string `json:"shape"`
 	Src     string `json:"src"`
+	NoID    bool   `json:"no_id,omitempty"`   // a frame of an allow-listed service whose URL names no video or tweet
+	WantID  string `json:"want_id,omitempty"` // expected data-id when it is not just the token (percent-escapes decode)
 }
 
 type c19Extra struct {
@@ -138,13 +140,19 @@ func genC19(t *rapid.T) *Case {
 				el = `<object width="425" height="350"><param name="movie" value="` + htmlEsc(src) + `"><embed src="` + htmlEsc(src) + `"></object>`
 			}
 		case "vimeo":
-			shape := g.pick("vmshape", "/video/ID", "/video/ID/", "/video/ID?color=fff", "/ID", "/video/?id=ID", "/?id=ID", "/video/ID#t=30s")
+			shape := g.pick("vmshape", "/video/ID", "/video/ID/", "/video/ID?color=fff", "/ID", "/video/?id=ID", "/?id=ID", "/video/ID#t=30s", "/video/ID%22%3E%3Cb%3E", "/video/ID%26amp%3B")
 			o.Shape = shape
 			if strings.Contains(shape, "#") {
 				query = ""
 			}
 			src := scheme + hostPart + strings.ReplaceAll(shape, "ID", tok) + query
 			o.Src = src
+			switch {
+			case strings.HasSuffix(shape, "%22%3E%3Cb%3E"):
+				o.WantID = tok + `"><b>` // the id is the decoded path segment, whatever characters it holds
+			case strings.HasSuffix(shape, "%26amp%3B"):
+				o.WantID = tok + "&amp;"
+			}
 			o.Tag = "iframe"
 			el = `<iframe src="` + htmlEsc(src) + `" width="640"></iframe>`
 		default:
@@ -183,6 +191,14 @@ func genC19(t *rapid.T) *Case {
 				fsrc := scheme + hostPart + "/embed/index.html" + query
 				o.Src = fsrc
 				el = `<iframe src="` + htmlEsc(fsrc) + `" data-tweet-id="` + tok + `" class="twitter-tweet-rendered"></iframe>`
+				if g.chance(25, "twnoid") {
+					// a frame of the service that is no tweet (follow button, timeline): nothing names a tweet
+					o.Tag = "iframe-twitter-widget"
+					o.NoID = o.Service != ""
+					fsrc = scheme + hostPart + g.pick("twwidget", "/widgets/follow_button.html", "/widgets/timeline/"+tok, "/"+tok) + query
+					o.Src = fsrc
+					el = `<iframe src="` + htmlEsc(fsrc) + `" title="widget ` + tok + `"></iframe>`
+				}
 			}
 		}
 		ex.Origins = append(ex.Origins, o)
@@ -258,6 +274,10 @@ func checkC19(c *Case) (*Violation, caseInfo) {
 			}
 		}
 		switch {
+		case o.NoID:
+			if viol == nil {
+				viol = violationf("C19 placeholder-for-frame-without-id tag="+o.Tag, "%s with source %q names no tweet, yet it became a placeholder with data-id=%q", o.Tag, o.Src, did)
+			}
 		case o.Service == "":
 			if viol == nil {
 				viol = violationf("C19 non-allow-listed-host-accepted tag="+o.Tag, "%s with source %q (true host %q) became an embed placeholder (data-type=%q)", o.Tag, o.Src, o.Host, dtype)
@@ -278,6 +298,8 @@ func checkC19(c *Case) (*Violation, caseInfo) {
 			if !isSeg && viol == nil {
 				viol = violationf("C19 made-up-data-id shape="+o.Shape+" service="+o.Service, "%s with source %q: data-id=%q is not a path segment of the source", o.Tag, o.Src, did)
 			}
+		case o.WantID != "" && did == o.WantID:
+			// percent-escapes of the id segment decode; the attribute holds the characters as they are
 		case did != o.Tok:
 			if viol == nil {
 				viol = violationf("C19 wrong-data-id shape="+o.Shape+" service="+o.Service, "%s with source %q: data-id=%q, expected %q", o.Tag, o.Src, did, o.Tok)
